@@ -11,6 +11,7 @@ import (
 	"fmt"
 	"io"
 	"net"
+	"os"
 	"runtime"
 	"strings"
 	"sync"
@@ -432,6 +433,7 @@ type c16Scenario struct {
 	K       int    `json:"k"`     // number of datagram deliveries before the injection
 	Closers int    `json:"closers"`
 	WBlock  bool   `json:"wblock"` // a Write blocked in the socket is present on X at the injection
+	Early   bool   `json:"early"`  // Read and Write issued during the handshake, right before the Close
 }
 
 type c16Obs struct {
@@ -444,6 +446,10 @@ type c16Obs struct {
 	EstP      bool `json:"est_p"`
 	ClosedX0  bool `json:"closed_x0"` // X already closed before the injection
 	HsPendX   bool `json:"hs_pend_x"`
+	NegX      bool `json:"neg_x"`  // X's pending HandshakeContext is still in version negotiation (no FSM yet)
+	EstX1     bool `json:"est_x1"` // X established at the end of the run
+	HeldReply bool `json:"held_reply"` // simul: the read loop was held exactly at its close_notify reply
+	HeldIdx   int  `json:"held_idx"`
 	HsPendP   bool `json:"hs_pend_p"`
 	RdPendX   bool `json:"rd_pend_x"`
 	RdPendP   bool `json:"rd_pend_p"`
@@ -457,6 +463,8 @@ type c16Obs struct {
 	RdX      string   `json:"rd_x"`
 	RdP      string   `json:"rd_p"`
 	WrX      string   `json:"wr_x"`
+	ErX      string   `json:"er_x"` // early Read (issued during the handshake)
+	EwX      string   `json:"ew_x"` // early Write
 	ClosedX  bool     `json:"closed_x"`
 	ClosedP  bool     `json:"closed_p"`
 	// after-calls
@@ -468,11 +476,15 @@ type c16Obs struct {
 	// deadline: connection still usable
 	AliveAfter bool `json:"alive_after"`
 	// wire
-	CNX    int        `json:"cn_x"`
+	CNX    int        `json:"cn_x"` // close_notify records before the harness's own teardown Close
 	CNP    int        `json:"cn_p"`
+	CNXAll int        `json:"cn_x_all"` // including the teardown
+	CNPAll int        `json:"cn_p_all"`
 	FatalX int        `json:"fatal_x"`
 	FatalP int        `json:"fatal_p"`
-	Und    int        `json:"und"`
+	Und    int        `json:"und"`   // protected records that could not be opened after the run
+	UndX   int        `json:"und_x"` // ... among those sent by X
+	UndP   int        `json:"und_p"`
 	Alerts []c16Alert `json:"alerts"`
 	// monitors of the runtime
 	Leak     int    `json:"leak"`
@@ -609,6 +621,8 @@ func c16Run(t *testing.T, sc c16Scenario) c16Obs {
 	obs.ClosedX0 = X.Conn.isConnectionClosed()
 	obs.HsPendX = !hsX.returned()
 	obs.HsPendP = !hsP.returned()
+	obs.NegX = obs.HsPendX && X.Conn.fsm == nil
+	obs.HeldIdx = -1
 	obs.RdPendX = rdX != nil && !rdX.call.returned()
 	obs.RdPendP = rdP != nil && !rdP.call.returned()
 	mark := l.lab.Net.count()
@@ -623,10 +637,24 @@ func c16Run(t *testing.T, sc c16Scenario) c16Obs {
 	switch sc.Event {
 	case "close":
 		var cl []*c16Call
+		var erX, ewX *c16Call
+		if sc.Early && obs.HsPendX {
+			// they queue on handshakeMutex behind the running HandshakeContext (a mutex is not a
+			// durable block, so no synctest.Wait until the Close released them)
+			erX = c16Go(func() error { _, err := X.Conn.Read(make([]byte, 64)); return err })
+			ewX = c16Go(func() error { _, err := X.Conn.Write([]byte("early")); return err })
+			for i := 0; i < 50; i++ {
+				runtime.Gosched()
+			}
+		}
 		for i := 0; i < sc.Closers; i++ {
 			cl = append(cl, c16Go(X.Conn.Close))
 		}
 		synctest.Wait()
+		if erX != nil {
+			obs.ErX, obs.EwX = erX.class(), ewX.class()
+			obs.Texts = erX.text() + "|" + ewX.text() + "|"
+		}
 		if wrX != nil {
 			obs.WrX = wrX.class()
 			xw.unblock()
@@ -692,6 +720,7 @@ func c16Simul(l *c16Lab, obs *c16Obs, X, P *vPeer, xw *c16Conn) {
 		hit := false
 		once.Do(func() { hit = true })
 		if hit {
+			obs.HeldIdx = l.lab.Net.count() - 1
 			close(held)
 			<-release
 		}
@@ -744,7 +773,7 @@ func c16After(
 	}
 	obs.ClosedX = X.Conn.isConnectionClosed()
 	obs.ClosedP = P.Conn.isConnectionClosed()
-	obs.Texts = strings.Join([]string{hsX.text(), hsP.text()}, ";")
+	obs.Texts += strings.Join([]string{hsX.text(), hsP.text()}, ";")
 
 	if obs.Sc.Event == "close" || obs.Sc.Event == "fatal" || obs.Sc.Event == "simul" {
 		c2 := c16Go(X.Conn.Close)
@@ -783,6 +812,8 @@ func c16After(
 // c16Finish: wire counts, teardown through the public API only, goroutine accounting.
 func c16Finish(t *testing.T, l *c16Lab, obs *c16Obs, base int, X, P *vPeer, mark int) {
 	t.Helper()
+	synctest.Wait()
+	tear := l.lab.Net.count()
 	cx := c16Go(X.Conn.Close)
 	cp := c16Go(P.Conn.Close)
 	synctest.Wait()
@@ -794,10 +825,28 @@ func c16Finish(t *testing.T, l *c16Lab, obs *c16Obs, base int, X, P *vPeer, mark
 	log := l.lab.Net.since(0)
 	ax, ux := c16Alerts(log, X.Name, P.Conn, 0)
 	ap, up := c16Alerts(log, P.Name, X.Conn, 0)
-	obs.CNX, obs.CNP = c16CountCN(ax), c16CountCN(ap)
+	obs.CNXAll, obs.CNPAll = c16CountCN(ax), c16CountCN(ap)
+	for _, a := range ax {
+		if a.Desc == int(alert.CloseNotify) && a.Idx < tear {
+			obs.CNX++
+		}
+	}
+	for _, a := range ap {
+		if a.Desc == int(alert.CloseNotify) && a.Idx < tear {
+			obs.CNP++
+		}
+	}
 	obs.FatalX, obs.FatalP = c16CountFatal(ax), c16CountFatal(ap)
-	obs.Und = ux + up
+	obs.Und, obs.UndX, obs.UndP = ux+up, ux, up
 	obs.Alerts = append(ax, ap...)
+	obs.EstX1 = X.Conn.isHandshakeCompletedSuccessfully()
+	for _, a := range ax {
+		if a.Desc == int(alert.CloseNotify) {
+			obs.HeldReply = obs.HeldIdx >= 0 && a.Idx == obs.HeldIdx
+
+			break
+		}
+	}
 	_ = mark
 	synctest.Wait()
 	if n := c16BubbleGoroutines() - base; n > 0 && obs.Leak == 0 {
@@ -852,27 +901,348 @@ func c16Baseline(t *testing.T, variant string) int {
 	return o.Steps
 }
 
-func TestVerifC16E2E(t *testing.T) {
-	out := newVOut(t)
+// c16Scenarios: systematic placement - one run per (variant, side, step index k, event).
+func c16Scenarios(t *testing.T, emit func(any)) []c16Scenario {
+	t.Helper()
+	var out []c16Scenario
 	for _, v := range c16Variants {
 		n := c16Baseline(t, v)
-		out.emit(map[string]any{"kind": "baseline", "variant": v, "steps": n})
+		emit(map[string]any{"kind": "baseline", "variant": v, "steps": n})
 		for _, side := range []string{"client", "server"} {
 			for k := 0; k <= n; k++ {
 				for closers := 1; closers <= 4; closers++ {
-					out.emit(c16Bubble(t, c16Scenario{Variant: v, Event: "close", Side: side, K: k, Closers: closers}))
+					out = append(out, c16Scenario{Variant: v, Event: "close", Side: side, K: k, Closers: closers})
 				}
-				out.emit(c16Bubble(t, c16Scenario{Variant: v, Event: "close", Side: side, K: k, Closers: 2, WBlock: true}))
-				out.emit(c16Bubble(t, c16Scenario{Variant: v, Event: "fatal", Side: side, K: k}))
-				out.emit(c16Bubble(t, c16Scenario{Variant: v, Event: "fatal", Side: side, K: k, WBlock: true}))
-				out.emit(c16Bubble(t, c16Scenario{Variant: v, Event: "deadline", Side: side, K: k}))
-				out.emit(c16Bubble(t, c16Scenario{Variant: v, Event: "deadline", Side: side, K: k, WBlock: true}))
-				out.emit(c16Bubble(t, c16Scenario{Variant: v, Event: "hsctx", Side: side, K: k}))
-				out.emit(c16Bubble(t, c16Scenario{Variant: v, Event: "simul", Side: side, K: k, Closers: 1}))
+				out = append(out,
+					c16Scenario{Variant: v, Event: "close", Side: side, K: k, Closers: 2, WBlock: true},
+					c16Scenario{Variant: v, Event: "close", Side: side, K: k, Closers: 2, Early: true},
+					c16Scenario{Variant: v, Event: "fatal", Side: side, K: k},
+					c16Scenario{Variant: v, Event: "fatal", Side: side, K: k, WBlock: true},
+					c16Scenario{Variant: v, Event: "deadline", Side: side, K: k},
+					c16Scenario{Variant: v, Event: "deadline", Side: side, K: k, WBlock: true},
+					c16Scenario{Variant: v, Event: "hsctx", Side: side, K: k},
+					c16Scenario{Variant: v, Event: "simul", Side: side, K: k, Closers: 1},
+					c16Scenario{Variant: v, Event: "simul", Side: side, K: k, Closers: 3},
+				)
 			}
 			for closers := 1; closers <= 4; closers++ {
-				out.emit(c16Bubble(t, c16Scenario{Variant: v, Event: "nohs", Side: side, K: 0, Closers: closers}))
+				out = append(out, c16Scenario{Variant: v, Event: "nohs", Side: side, K: 0, Closers: closers})
 			}
 		}
+	}
+
+	return out
+}
+
+// TestVerifC16E2E: VERIF_C16_REPS repetitions of the whole placement (the driver uses >1 with
+// -race in the thorough tier); VERIF_C16_ONLY="variant/event/side/k/closers/wblock/early"
+// replays one scenario.
+func TestVerifC16E2E(t *testing.T) {
+	out := newVOut(t)
+	if only := os.Getenv("VERIF_C16_ONLY"); only != "" {
+		var sc c16Scenario
+		var wb, early int
+		parts := strings.Split(only, "/")
+		if len(parts) != 7 {
+			t.Fatalf("VERIF_C16_ONLY: want 7 fields")
+		}
+		sc.Variant, sc.Event, sc.Side = parts[0], parts[1], parts[2]
+		fmt.Sscanf(parts[3], "%d", &sc.K)
+		fmt.Sscanf(parts[4], "%d", &sc.Closers)
+		fmt.Sscanf(parts[5], "%d", &wb)
+		fmt.Sscanf(parts[6], "%d", &early)
+		sc.WBlock, sc.Early = wb != 0, early != 0
+		out.emit(map[string]any{"kind": "begin", "sc": sc})
+		out.emit(c16Bubble(t, sc))
+
+		return
+	}
+	reps := 1
+	if v := os.Getenv("VERIF_C16_REPS"); v != "" {
+		fmt.Sscanf(v, "%d", &reps)
+	}
+	scs := c16Scenarios(t, out.emit)
+	for rep := 0; rep < reps; rep++ {
+		for _, sc := range scs {
+			out.emit(map[string]any{"kind": "begin", "sc": sc})
+			out.emit(c16Bubble(t, sc))
+		}
+	}
+}
+
+// ---------------------------------------------------------------- concurrent stress
+
+type c16StressObs struct {
+	Kind     string   `json:"kind"`
+	Variant  string   `json:"variant"`
+	Iter     int      `json:"iter"`
+	Both     bool     `json:"both"` // the peer closes concurrently as well
+	Workers  int      `json:"workers"`
+	Stuck    int      `json:"stuck"`    // calls that have not returned at quiescence
+	ReadEnd  []string `json:"read_end"` // class of the error that ended each reader (X then P)
+	WriteEnd []string `json:"write_end"`
+	CloseRes []string `json:"close_res"`
+	Writes   int      `json:"writes"`
+	Reads    int      `json:"reads"`
+	CNX      int      `json:"cn_x"`
+	CNP      int      `json:"cn_p"`
+	Leak     int      `json:"leak"`
+	LeakInfo string   `json:"leak_info,omitempty"`
+	Panic    string   `json:"panic,omitempty"`
+}
+
+// c16Stress: established connection, then Read, Write, Close, deadline setters and state
+// accessors run concurrently (really in parallel: the bubble does not serialise goroutines)
+// on both endpoints while the network delivers every datagram at once.
+func c16Stress(t *testing.T, variant string, iter int, seed uint64) c16StressObs {
+	t.Helper()
+	rng := newVRand(seed)
+	obs := c16StressObs{Kind: "stress", Variant: variant, Iter: iter}
+	base := c16BubbleGoroutines()
+	l := c16NewLab(t, variant)
+	X, P := l.lab.Client, l.lab.Server
+	if rng.chance(50) {
+		X, P = P, X
+	}
+	stop := make(chan struct{})
+	pumpDone := make(chan struct{})
+	go func() { // eager network
+		defer close(pumpDone)
+		next := 0
+		for {
+			for _, d := range l.lab.Net.since(next) {
+				next = d.Idx + 1
+				l.lab.Net.deliver(d.To, d.From, d.Data)
+			}
+			select {
+			case <-l.lab.Net.notify:
+			case <-stop:
+				return
+			}
+		}
+	}()
+	hx := c16Go(func() error { return X.Conn.HandshakeContext(context.Background()) })
+	hp := c16Go(func() error { return P.Conn.HandshakeContext(context.Background()) })
+	synctest.Wait()
+	if hx.class() != "ok" || hp.class() != "ok" {
+		// duals needs one retransmission
+		time.Sleep(1100 * time.Millisecond)
+		synctest.Wait()
+	}
+	if hx.class() != "ok" || hp.class() != "ok" {
+		obs.Panic = "handshake did not complete: " + hx.class() + "/" + hp.class()
+	}
+	var calls []*c16Call
+	var mu sync.Mutex
+	add := func(c *c16Call) { calls = append(calls, c) }
+	yield := func(n int) {
+		for i := 0; i < n; i++ {
+			runtime.Gosched()
+		}
+	}
+	var readEnd, writeEnd []string
+	reader := func(p *vPeer) {
+		add(c16Go(func() error {
+			buf := make([]byte, 4096)
+			for tries := 0; tries < 400; tries++ {
+				_, err := p.Conn.Read(buf)
+				if err == nil {
+					mu.Lock()
+					obs.Reads++
+					mu.Unlock()
+
+					continue
+				}
+				if c16Class(err) == "deadline" {
+					yield(3)
+
+					continue
+				}
+				mu.Lock()
+				readEnd = append(readEnd, c16Class(err))
+				mu.Unlock()
+
+				return err
+			}
+			mu.Lock()
+			readEnd = append(readEnd, "gaveup")
+			mu.Unlock()
+
+			return nil
+		}))
+	}
+	writer := func(p *vPeer, n int, y int) {
+		add(c16Go(func() error {
+			for i := 0; i < n; i++ {
+				_, err := p.Conn.Write([]byte("stress-payload-0123456789abcdef"))
+				if err == nil {
+					mu.Lock()
+					obs.Writes++
+					mu.Unlock()
+					yield(y)
+
+					continue
+				}
+				if c16Class(err) == "deadline" {
+					continue
+				}
+				mu.Lock()
+				writeEnd = append(writeEnd, c16Class(err))
+				mu.Unlock()
+
+				return err
+			}
+			mu.Lock()
+			writeEnd = append(writeEnd, "finished")
+			mu.Unlock()
+
+			return nil
+		}))
+	}
+	setter := func(p *vPeer, plan []int) {
+		add(c16Go(func() error {
+			for _, k := range plan {
+				var tm time.Time
+				switch k % 3 {
+				case 0:
+					tm = time.Now().Add(-time.Second)
+				case 1:
+					tm = time.Now().Add(time.Hour)
+				}
+				switch (k / 3) % 3 {
+				case 0:
+					_ = p.Conn.SetDeadline(tm)
+				case 1:
+					_ = p.Conn.SetReadDeadline(tm)
+				default:
+					_ = p.Conn.SetWriteDeadline(tm)
+				}
+				yield(2)
+			}
+			// leave the deadlines cleared so that blocked calls are ended by Close only
+			_ = p.Conn.SetDeadline(time.Time{})
+
+			return nil
+		}))
+	}
+	accessor := func(p *vPeer, n int) {
+		add(c16Go(func() error {
+			for i := 0; i < n; i++ {
+				_, _ = p.Conn.ConnectionState()
+				_ = p.Conn.RemoteAddr()
+				_ = p.Conn.LocalAddr()
+				_, _ = p.Conn.SelectedSRTPProtectionProfile()
+				_, _ = p.Conn.RemoteSRTPMasterKeyIdentifier()
+				yield(1)
+			}
+
+			return nil
+		}))
+	}
+	var closeCalls []*c16Call
+	closer := func(p *vPeer, delay int) {
+		c := c16Go(func() error {
+			yield(delay)
+
+			return p.Conn.Close()
+		})
+		closeCalls = append(closeCalls, c)
+		add(c)
+	}
+	obs.Both = rng.chance(35)
+	for _, p := range []*vPeer{X, P} {
+		for i := 0; i < 1+rng.intn(2); i++ {
+			reader(p)
+		}
+		for i := 0; i < 1+rng.intn(3); i++ {
+			writer(p, 5+rng.intn(20), rng.intn(4))
+		}
+		for i := 0; i < 1+rng.intn(2); i++ {
+			plan := make([]int, 4+rng.intn(8))
+			for j := range plan {
+				plan[j] = rng.intn(9)
+			}
+			setter(p, plan)
+		}
+		accessor(p, 10+rng.intn(30))
+	}
+	for i := 0; i < 1+rng.intn(4); i++ {
+		closer(X, rng.intn(400))
+	}
+	if obs.Both {
+		for i := 0; i < 1+rng.intn(2); i++ {
+			closer(P, rng.intn(400))
+		}
+	}
+	obs.Workers = len(calls)
+	synctest.Wait()
+	for _, c := range calls {
+		if !c.returned() {
+			obs.Stuck++
+		}
+	}
+	if obs.Stuck > 0 {
+		obs.LeakInfo = "stuck calls: " + c16Stacks()
+	}
+	for _, c := range closeCalls {
+		obs.CloseRes = append(obs.CloseRes, c.class())
+	}
+	mu.Lock()
+	obs.ReadEnd, obs.WriteEnd = readEnd, writeEnd
+	mu.Unlock()
+	// teardown through the API
+	cx := c16Go(X.Conn.Close)
+	cp := c16Go(P.Conn.Close)
+	synctest.Wait()
+	if !cx.returned() || !cp.returned() {
+		obs.Stuck++
+	}
+	close(stop)
+	<-pumpDone
+	synctest.Wait()
+	log := l.lab.Net.since(0)
+	ax, _ := c16Alerts(log, X.Name, P.Conn, 0)
+	ap, _ := c16Alerts(log, P.Name, X.Conn, 0)
+	obs.CNX, obs.CNP = c16CountCN(ax), c16CountCN(ap)
+	if n := c16BubbleGoroutines() - base; n > 0 {
+		for i := 0; i < 2000 && c16BubbleGoroutines()-base > 0; i++ {
+			runtime.Gosched()
+		}
+		if n = c16BubbleGoroutines() - base; n > 0 {
+			obs.Leak = n
+			obs.LeakInfo += c16Stacks()
+		}
+	}
+	_ = X.EP.Close()
+	_ = P.EP.Close()
+	synctest.Wait()
+
+	return obs
+}
+
+func TestVerifC16Stress(t *testing.T) {
+	out := newVOut(t)
+	n := 40
+	if vIsThorough() {
+		n = 400
+	}
+	if v := os.Getenv("VERIF_C16_ITERS"); v != "" {
+		fmt.Sscanf(v, "%d", &n)
+	}
+	rng := newVRand(vSeed() ^ 0xc16)
+	for i := 0; i < n; i++ {
+		variant := []string{"v12", "v13", "v12psk", "dual13"}[i%4]
+		seed := rng.u64()
+		out.emit(map[string]any{"kind": "begin", "stress": i, "variant": variant})
+		var obs c16StressObs
+		func() {
+			defer func() {
+				if r := recover(); r != nil {
+					obs = c16StressObs{Kind: "stress", Variant: variant, Iter: i, Panic: fmt.Sprint(r)}
+				}
+			}()
+			vBubble(t, func(t *testing.T) { obs = c16Stress(t, variant, i, seed) })
+		}()
+		out.emit(obs)
 	}
 }
